@@ -100,7 +100,12 @@ def listDetect (b : Built Ty) (s : Seq) : List Ty := (ptraverse (listSucc b) 64 
 
 abbrev R := Except Err
 
-def isA (cls name : String) : Bool := (cls.splitOn "|").contains name
+/-- `"A|B|C"` (the MRO names the harness reports) split at the bars; structural over the characters so that the kernel
+evaluates it on literals (`String.splitOn` does not reduce) — same value as `cls.splitOn "|"` -/
+def splitBar : List Char → List Char → List (List Char)
+  | [], acc => [acc.reverse]
+  | c :: cs, acc => if c = '|' then acc.reverse :: splitBar cs [] else splitBar cs (c :: acc)
+def isA (cls name : String) : Bool := (splitBar cls.toList []).contains name.toList
 def escape (cls : String) : Err :=
   if isA cls "TypeError" then .dispatch ((cls.splitOn "|").headD cls) else .raised ((cls.splitOn "|").headD cls)
 def caught (names : List String) (cls : String) : Bool := names.any (isA cls)
@@ -269,6 +274,30 @@ def stringToPath (s : Seq) : R Seq :=
   | .raises c => .error (escape c)
   | .ok true => mapT (·.winAbs) Elem.ofPurePath s
   | .ok false => mapT (·.posixAbs) Elem.ofPurePath s
+
+/-! ### the executable hypothesis of the totality theorems -/
+
+/-- every element conversion either returns or raises a class that the test applying it catches (the catch lists are
+those of the code, mirrored above and pinned by `Shapes.shapes_match`), every `str` has `.lower()`, every `complex` has a
+value; executable, evaluated by the driver on every generated sequence -/
+def elemOk (x : Elem) : Bool :=
+  let c3 := caught ["ValueError", "TypeError", "AttributeError"]
+  (match x.lowerTF with | .raises _ => !x.isStr | _ => true) &&
+  (match x.flo with | .raises c => caught ["ValueError", "TypeError"] c | _ => true) &&
+  (match x.firstZero with | .raises c => caught ["ValueError", "TypeError"] c | _ => true) &&
+  (match x.cplx with | .raises c => c3 c | _ => true) &&
+  (match x.strp with | .raises c => caught ["OverflowError", "TypeError", "ValueError"] c | _ => true) &&
+  (match x.url with | .raises c => c3 c | _ => true) &&
+  (match x.uuid with | .raises c => c3 c | _ => true) &&
+  (match x.ip with | .raises c => c3 c | _ => true) &&
+  (match x.email with | .raises c => c3 c | _ => true) &&
+  (match x.wkt with | .raises c => caught ["WKTReadingError", "GEOSException", "AttributeError", "UnicodeEncodeError", "TypeError"] c | _ => true) &&
+  (match x.winAbs with | .raises c => caught ["TypeError"] c | _ => true) &&
+  (match x.posixAbs with | .raises c => caught ["TypeError"] c | _ => true) &&
+  (match x.midnight with | .raises c => c3 c | _ => true) &&
+  (x.cval.isSome || !x.isComplex) &&
+  (match intEq x with | .raises c => caught ["ValueError", "TypeError", "OverflowError"] c | _ => true)
+def convCaughtL (s : Seq) : Bool := s.all elemOk
 
 def guardL (src dst : Ty) : Option (Seq → R Bool) :=
   match src, dst with
